@@ -77,7 +77,16 @@ def shrink_candidates(case):
     out = []
     for key in ('A', 'B'):
         t = case.get(key)
-        if t:
+        if t and len(t) > 24:
+            # a large table: delete contiguous blocks (halves, quarters, eighths) instead of single rows
+            for parts in (2, 4, 8):
+                size = (len(t) + parts - 1) // parts
+                for start in range(0, len(t), size):
+                    c = dict(case)
+                    c['q'] = copy.deepcopy(case['q'])
+                    c[key] = t[:start] + t[start + size:]
+                    out.append(c)
+        elif t:
             for i in range(len(t)):
                 c = copy.deepcopy(case)
                 del c[key][i]
@@ -110,7 +119,7 @@ def shrink_candidates(case):
             out.append(c)
     for key in ('A', 'B'):
         t = case.get(key)
-        if t and case.get('header_' + key.lower()) is None:     # with a header the table stays as wide as the header
+        if t and len(t) <= 24 and case.get('header_' + key.lower()) is None:     # with a header the table stays as wide as the header
             for i, r in enumerate(t):
                 if len(r) > 1:
                     c = copy.deepcopy(case)
@@ -120,8 +129,13 @@ def shrink_candidates(case):
 
 
 def shrink(case, impl, fields, rounds=40, valid=None):
+    import time
     cur = case
-    for _ in range(rounds):
+    t_end = time.time() + 45       # shrinking is a convenience, never a reason to hang: the unshrunk case is a replay too
+    big = max(len(case.get('A') or []), len(case.get('B') or [])) > 24
+    for _ in range(rounds * (4 if big else 1)):
+        if time.time() > t_end:
+            break
         cands = [c for c in shrink_candidates(cur) if valid is None or valid(c)]
         if not cands:
             break
